@@ -199,7 +199,7 @@ def build(h, wd, cover=False):
 # solve
 
 def cbmc_cmd(h, gb, solver, extra=(), cover=False, ui="json"):
-    cmd = ["cbmc", gb, "--drop-unused-functions"] + (["--json-ui"] if ui == "json" else [])
+    cmd = ["cbmc", gb, "--drop-unused-functions"] + (["--json-ui"] if ui == "json" else ["--verbosity", "9"])  # 9: solver statistics
     if h.unwind is not None:
         cmd += ["--unwind", str(h.unwind)]
     for us in h.unwindset:
